@@ -282,6 +282,25 @@ def props_audit(prop, pins):
                 axioms=sorted(set(axioms)), closed=closed, problems=problems, log=out, print_assumptions=n_pa)
 
 
+GLUE_PINS = {
+    # cross-layer glue (coq/Props/Glue.v, docs/glue.md): Layer R's abstractions are what the faithful layers do
+    "timers": ["glue_fixed_timers", "glue_parity", "glue_rt_fire", "glue_rt_timer_add"],
+    "queues": ["glue_rt_push", "glue_rt_hold", "glue_rt_execute", "glue_rt_execute_lazy", "glue_rt_execute_first_timers", "glue_rt_drop",
+               "glue_rt_is_empty", "glue_rt_recreate", "glue_queue_ops", "glue_one_queue", "glue_queue_ops_swap"],
+}
+
+
+def glue_audit(which):
+    """Audit coq/Props/Glue.v for the pins of `which` ('timers' | 'queues'); returns (problems, summary dict)."""
+    a = props_audit("Glue", GLUE_PINS[which])
+    probs = ["glue (%s): %s" % (which, p) for p in a["problems"]]
+    if not a["ok"]:
+        failed = coq_failed_files(a["log"])
+        if failed:
+            probs.append("glue (%s): files failing to compile: %s" % (which, ", ".join(failed)))
+    return probs, {"file": "coq/Props/Glue.v", "pins": GLUE_PINS[which], "ok": a["ok"], "closed_under_global_context": a["closed"], "axioms": a["axioms"]}
+
+
 def coq_deps(vfile):
     """Transitive .v dependencies (within coq/) of a file, from the Makefile's dependency database."""
     dfile = os.path.join(COQ, ".Makefile.d")
